@@ -97,8 +97,10 @@ CarriedFaceFace(r) ==
     Has(r.carried, "face_face") =>
       /\ Has(r.got, "face_face")
       /\ Len(r.got.face_face) = Len(r.carried.face_face)
-      /\ \A f \in 1..Len(r.carried.face_face) : \A g \in 0..(Len(r.carried.face_face) - 1) :
-            CountIn(r.got.face_face[f], g) = CountIn(r.carried.face_face[f], g)
+      /\ \A f \in 1..Len(r.carried.face_face) :
+            \* the same neighbours, as often, and nothing else (a padding slot decoded as a neighbour is "else")
+            /\ \A g \in 0..(Len(r.carried.face_face) - 1) : CountIn(r.got.face_face[f], g) = CountIn(r.carried.face_face[f], g)
+            /\ Len(Unpadded(r.got.face_face[f])) = Len(Unpadded(r.carried.face_face[f]))
 \* centre of expected face k = the centre the source gives its face perm[k]
 CarriedCentres(r) == Has(r.carried, "centres") => (Has(r.got, "centres") /\ r.got.centres = r.perm)
 CarriedCounts(r)  == Has(r.carried, "npf") => (Has(r.got, "npf") /\ r.got.npf = r.carried.npf)
@@ -107,6 +109,20 @@ CarriedCounts(r)  == Has(r.carried, "npf") => (Has(r.got, "npf") /\ r.got.npf = 
 CarriedAreas(r)        == Has(r.carried, "face_areas") => (Has(r.got, "face_areas") /\ r.got.face_areas = r.carried.face_areas)
 CarriedEdgeNodeDist(r) == Has(r.carried, "edge_node_dist") => (Has(r.got, "edge_node_dist") /\ r.got.edge_node_dist = r.carried.edge_node_dist)
 CarriedEdgeFaceDist(r) == Has(r.carried, "edge_face_dist") => (Has(r.got, "edge_face_dist") /\ r.got.edge_face_dist = r.carried.edge_face_dist)
+
+(* ---- decoding a shared input more than once (Decode ; Decode of Dialects.tla) ------------------ *)
+\* r.kept[i]: after the i-th decoding the input object still is, bit for bit, what was handed over
+\* (deep fingerprint: every variable's dtype, shape, bytes, attributes; dimensions; global attributes)
+InputKept(r) == Has(r, "kept") => \A n \in 1..Len(r.kept) : r.kept[n]
+\* r.later[i]: projection of the Grid from decoding i + 1 of the SAME input object; r.modes / r.exps say how it
+\* is judged: as the faces of the case (by position, like the first decoding) or as the index table TLC derived
+\* from the stored source for the other MPAS grid
+DecodeRepeatable(r) ==
+    Has(r, "later") => \A n \in 1..Len(r.later) :
+        LET g == r.later[n] IN
+        IF r.modes[n + 1] = "faces"
+        THEN LET r2 == [ r EXCEPT !.got = g ] IN FaceCount(r2) /\ FacesMatch(r2) /\ InRange(g) /\ PadAtEnd(g)
+        ELSE g.tbl = r.exps[n + 1]
 
 CaseClauses(r) ==
   [ FaceCount       |-> FaceCount(r),
@@ -128,7 +144,9 @@ CaseClauses(r) ==
     CarriedCounts   |-> CarriedCounts(r),
     CarriedAreas    |-> CarriedAreas(r),
     CarriedEdgeNodeDist |-> CarriedEdgeNodeDist(r),
-    CarriedEdgeFaceDist |-> CarriedEdgeFaceDist(r) ]
+    CarriedEdgeFaceDist |-> CarriedEdgeFaceDist(r),
+    InputKept       |-> InputKept(r),
+    DecodeRepeatable |-> DecodeRepeatable(r) ]
 
 (* ---- sample files (code -> spec) ------------------------------------------------------ *)
 \* every face has at least three corners
